@@ -168,3 +168,47 @@ Proof. split. exact example_history_pre. split. reflexivity. split. reflexivity.
 Theorem C09_example2 : hist_pre empty example_history2 = true /\ forallb supported example_history2 = true /\
   exists c, run_hist example_history2 = Some c /\ CInv c.
 Proof. split. exact example_history2_pre. split. reflexivity. exact example_history2_inv. Qed.
+
+From Coq Require Import ZArith.
+From KV Require Import Model.CircuitPrimsSrcLib Gen.CircuitPrimsSrc Proofs.CircuitPrimsSrcProofs.
+(* SOURCE TIE of the primitives every edit goes through (circuit.py: GrowingList, IndexList, Node.__init__ / remove, Line.__init__ /
+   remove).  Gen/CircuitPrimsSrc.v is regenerated from the current text of circuit.py on every run by the fail-closed translator
+   translate/gen_circuit_prims.py (vocabulary and what it trusts: Model/CircuitPrimsSrcLib.v); each translated function equals the
+   hand-written primitive of Model/Circuit.v on EVERY state -- no invariant and no precondition is needed, the hand model follows the
+   code also where it raises.  Python ints are Z in the translation; the theorems are stated for non-negative positions (Z.of_nat).
+   Stores are functions, so states are compared field by field and pointwise ([ceq], no extensionality axiom); where the two sides
+   are even the same term the conjunct is a plain equation. *)
+Theorem C09_prims_source_is_model :
+  (forall l i v, GrowingList_setitem_src l (Z.of_nat i) v = Some (gset l i v)) /\
+  (forall l, GrowingList_free_index_src l = Some (Z.of_nat (free_index l))) /\
+  (forall c i, IndexList_delitem_nodes_src c (Z.of_nat i) = del_node_at c i) /\
+  (forall c i, IndexList_delitem_lines_src c (Z.of_nat i) = del_line_at c i) /\
+  (Node_init_default_kind = FORK /\
+   forall c name kind, oceq_id (Node_init_src c name kind) (add_node c name kind)) /\
+  (forall c n, Node_remove_src c n = node_remove c n) /\
+  (forall c d dp r rp, oceq_id (Line_init_src c (pin_arg d dp) (pin_arg r rp)) (Some (add_line c d dp r rp))) /\
+  (forall c l, oceq (Line_remove_src c l) (line_remove c l)).
+Proof. exact prims_source_is_model. Qed.
+
+From KV Require Import Proofs.CircuitCeq Proofs.CircuitPrimsSrcHist.
+(* [ceq] is an equivalence that the invariant and the primitive operations of the hand model respect, so the conjuncts above compose:
+   one step of a primitive operation executed by the translated source ([step_source]: Node(), Line(), Line.remove, Node.remove and
+   io_nodes[pos] = n run Gen/CircuitPrimsSrc.v, the composite operations run the hand model) is the step of the hand model, ... *)
+Theorem C09_ceq_respected :
+  (forall a b, ceq a b -> CInv a -> CInv b) /\ (forall a b, ceq a b -> IoLive a -> IoLive b) /\
+  (forall a b o, prim_op o = true -> ceq a b -> oceq (step a o) (step b o)).
+Proof. exact ceq_respected. Qed.
+Theorem C09_prims_source_step : forall c o, oceq (step_source c o) (step c o).
+Proof. exact step_source_is_model. Qed.
+(* ... and every history of well-formed use of the primitive operations, EXECUTED BY THE TRANSLATED SOURCE from the empty circuit,
+   does not raise and ends in a consistent graph (which is, field by field, the state of the hand model) *)
+Theorem C09_prims_source_history : forall ops, forallb prim_op ops = true -> hist_pre empty ops = true ->
+  exists c, run_source empty ops = Some c /\ CInv c /\ exists c', run_hist ops = Some c' /\ ceq c c'.
+Proof. exact source_history_inv. Qed.
+(* the hypotheses are satisfiable: the 12-step history of C09_example (swap-with-last removal, fork squeeze) on the translated source *)
+Theorem C09_prims_source_example :
+  forallb prim_op example_history = true /\ hist_pre empty example_history = true /\
+  option_map (fun c => (nodes c, lines c, map (fun n => n_outs (nst c n)) (nodes c))) (run_source empty example_history) =
+  option_map (fun c => (nodes c, lines c, map (fun n => n_outs (nst c n)) (nodes c))) (run_hist example_history) /\
+  (exists c, run_source empty example_history = Some c /\ List.length (nodes c) + List.length (lines c) > 0).
+Proof. exact source_history_example. Qed.
